@@ -254,6 +254,54 @@ func checkC12(c C12Case, o *Obs) (err error) {
 			}
 		}
 	}
+	// The caller refills the sequence buffer in place (next record, same length) between two
+	// passes over one iterator value. The value either stands for the buffer (the later pass
+	// yields the items of the new content) or for the content at the time of the call (the old
+	// items again) - but not for a mixture of the two.
+	if len(items) >= 1 {
+		it := sequtil.CanonicalSubsequences(src, k)
+		n := 0
+		for range it {
+			n++
+			if n > len(items) {
+				break
+			}
+		}
+		for i, b := range src {
+			src[i] = ref.RevComp([]byte{b})[0] // another valid sequence, case kept
+		}
+		var wantNew [][]byte
+		for i := 0; i+k <= len(src); i++ {
+			wantNew = append(wantNew, bytes.Clone(ref.Canonical(src[i:i+k])))
+		}
+		var got [][]byte
+		p := catch(func() {
+			for x := range it {
+				got = append(got, bytes.Clone(x))
+				if len(got) > len(items)+2 {
+					break
+				}
+			}
+		})
+		copy(src, srcCopy)
+		if p != nil {
+			return fmt.Errorf("second pass over one iterator value of CanonicalSubsequences(%q,%d) after the buffer was refilled panicked: %v", src, k, p)
+		}
+		same := func(a, b [][]byte) bool {
+			if len(a) != len(b) {
+				return false
+			}
+			for i := range a {
+				if !bytes.Equal(a[i], b[i]) {
+					return false
+				}
+			}
+			return true
+		}
+		if !same(got, wantNew) && !same(got, items) {
+			return fmt.Errorf("CanonicalSubsequences(%q,%d): after the caller replaced every base by its complement in place, a second pass over the same iterator value yields %q - neither the items of the new content %q nor those of the old %q", src, k, got, wantNew, items)
+		}
+	}
 	// Two iterations in progress at the same time (one over src, one over its reverse
 	// complement, advanced in turn, the second one item behind): each yields its own items,
 	// and the items of one are not disturbed by the other.
